@@ -232,6 +232,7 @@ def B_OPS() -> Dict[str, Callable]:
         "sumtensor_full": lambda S, T, a: ttb.sumtensor([S, T]).full(),
         "setitem_region": lambda S, T, a: _setitem_region(S, T, a),
         "setitem_list_grow": lambda S, T, a: _setitem_list_grow(S, T, a),
+        "setitem_stride_block": lambda S, T, a: _setitem_stride_block(S, T, a),
     }
 
 
@@ -244,6 +245,14 @@ def _setitem_list_grow(S, T, a):
         return X
     W = T[tuple([slice(0, 2)] + [slice(0, s) for s in S.shape[1:]])]
     X[tuple([[0, s0]] + [slice(0, s) for s in S.shape[1:]])] = W
+    return X
+
+
+def _setitem_stride_block(S, T, a):
+    """a sparse block assigned through a stepped slice of the first mode"""
+    X = S.copy()
+    key = tuple([slice(0, None, 2)] + [slice(0, s) for s in S.shape[1:]])
+    X[key] = T[key]
     return X
 
 
@@ -260,7 +269,7 @@ STRICT = ["add", "sub", "mul", "and", "or", "xor", "eq", "ne", "lt", "le", "gt",
           "getitem_bounded", "setitem_stride_zero", "squash", "to_sptenmat",
           "to_sptenmat_t", "sptenmat_roundtrip", "aggregate_dup", "aggregate_cancel", "sptenmat_ctor",
           "eq_scalar", "ne_scalar", "lt_scalar", "ge_scalar0", "gt_scalar_neg", "and_scalar", "eq_dense",
-          "ne_dense", "le_dense", "gt_dense", "and_dense", "mul_dense_zeros", "setitem_region", "setitem_list_grow", "copy",
+          "ne_dense", "le_dense", "gt_dense", "and_dense", "mul_dense_zeros", "setitem_region", "setitem_list_grow", "setitem_stride_block", "copy",
           "permute_rev", "reshape_flat", "squeeze", "ones", "neg", "pos",
           "setitem_subs_mixed", "setitem_subs_mixed_rev", "mul_scalar_zero", "rmul_scalar_zero", "mul_ktensor_zero_row", "scale_vec_zero", "scale_dense_zero", "div",
           "mul_scalar_underflow", "rmul_scalar_underflow", "sptenmat_ctor_cancel"]
